@@ -75,6 +75,11 @@ def exc_in_harness(exc):
     """True if the exception is a bug of the harness rather than behaviour of the system under test: walking from the
     innermost frame outwards (skipping third-party frames such as jax / numpy / pandas), the first frame that belongs to
     either side decides — jaxley: the library raised (or made JAX raise); /verif: the harness did."""
+    if type(exc).__name__ == "UnexpectedTracerError":
+        # "a function transformed by JAX had a side effect": the only functions the harness transforms are thin
+        # wrappers around jaxley.integrate, and the harness stores no traced values — a leaked tracer that resurfaces
+        # (even at a harness call site, through an object the library mutated) is a purity failure of the library
+        return False
     tb = traceback.extract_tb(exc.__traceback__)
     for fr in reversed(tb):
         fn = fr.filename
